@@ -146,7 +146,7 @@ Fixpoint fmtB (fuel : nat) (src : bytes) (w : fw) (idx : Z) (parent : option blo
       let w := if hasWritten w then ws w [10;45;45;45;10;10] else ws w [42;42;42;10;10] in
       around w [] (fun w => w)
     else if k =? ListKind then
-      let w := if hasWritten w && isTightList b then ws w [10] else w in
+      let w := if hasWritten w then ws w [10] else w in
       around w [] (fun w => w)
     else if k =? ListItemKind then
       let w := if (0 <? idx) && negb (isTightList b) then ws w [10] else w in
